@@ -101,6 +101,8 @@ type c09Common struct{}
 
 func (c09Common) Async() bool { return false }
 
+func (c09Common) AfterSend(sender types.StreamSender) error { return nil }
+
 // SelfDeadlock recognises, from the frames of one blocked goroutine, the chain
 // streamConn.Reset (holds sc.clientMutex.Lock for its whole body) -> xStream.ResetStream ->
 // BaseStream.DestroyStream -> listener.OnDestroyStream -> client.ActiveRequestsNum ->
